@@ -15,11 +15,23 @@ PY_BUILTINS = {"len", "int", "float", "bool", "str", "bytes", "abs", "min", "max
                "enumerate", "zip", "sorted", "list", "tuple", "dict", "set", "sum", "any", "all", "getattr",
                "hasattr", "print", "repr", "divmod", "pow", "hash", "id", "type", "object", "reversed", "iter",
                "next", "callable", "bytearray", "frozenset", "super", "ord", "chr", "hex", "format", "map", "filter"}
-SPEC_FORMS = {"gcount", "dq_lo", "dq_hi", "dq_at_pos", "dq_pos_of", "now", "map_has", "map_get", "map_key0", "set_has", "dq_len", "dq_maxlen", "dq_at", "dq_idx", "ghost", "timer_arg", "timer_delay", "old", "implies", "forall", "exists", "raised", "iff", "ite", "uf", "fresh_int", "fresh_real",
+SPEC_FORMS = {"model", "gcount", "dq_lo", "dq_hi", "dq_at_pos", "dq_pos_of", "now", "map_has", "map_get", "map_key0", "set_has", "dq_len", "dq_maxlen", "dq_at", "dq_idx", "ghost", "timer_arg", "timer_delay", "old", "implies", "forall", "exists", "raised", "iff", "ite", "uf", "fresh_int", "fresh_real",
               "fresh_bool"}
 EXTERNAL_MODULES = {"math", "time", "threading", "random", "logging", "datetime", "json", "socket", "struct",
                     "select", "copy", "dataclasses", "typing", "enum", "collections", "hashlib", "os", "sys",
                     "asn1tools", "ecdsa", "tinydb", "dateutil", "abc", "queue", "functools", "itertools"}
+
+
+def _h_unknown_global(e, st, o, name, args, kwargs):
+    if name == "__contains__":
+        yield st, z3.Bool(e.fresh("in_global_container"))
+    elif name in ("add", "discard", "append", "extend", "clear", "update"):
+        yield st, NONE
+    elif name == "__len__":
+        n = e.T.const(e.fresh("global_len"))
+        yield st.assume(n >= e.intval(0)), n
+    else:
+        raise Unsupported(f"{name} on the module-level mutable container {o.data['name']}")
 
 
 class ExprMixin:
@@ -112,10 +124,38 @@ class ExprMixin:
             raise Unsupported(f"module constant {mod}.{name} is not a simple constant")
         s1, v = outs[0]
         if s1.nalloc:
-            # literal container: cannot be shared across states by reference -> frozen snapshot
-            v = ConstContainer(self.freeze(s1, v))
+            if self.global_is_mutated(mod, name):
+                # module-level container that some function of the module mutates: its content at the time of a call
+                # depends on the whole history of the process - nothing is known about it
+                self.used_assumptions.add(f"module-level mutable container {mod}.{name}: arbitrary content (membership tests "
+                                          "return an arbitrary boolean, mutations have no visible effect)")
+                v = Opaque("unknown_global", None, {"name": f"{mod}.{name}"})
+                self.opaque_handlers.setdefault("unknown_global", _h_unknown_global)
+            else:
+                # literal container: cannot be shared across states by reference -> frozen snapshot
+                v = ConstContainer(self.freeze(s1, v))
         cache[key] = v
         return v
+
+    def global_is_mutated(self, mod, name):
+        """is the module-level name `name` mutated in place (or rebound through `global`) anywhere in its module?"""
+        mi = self.repo.modules.get(mod) if hasattr(self.repo, "modules") else None
+        if mi is None:
+            return False
+        mut = {"add", "discard", "remove", "append", "extend", "insert", "pop", "popitem", "clear", "update", "setdefault",
+               "sort", "reverse", "appendleft", "popleft", "difference_update", "intersection_update", "symmetric_difference_update"}
+        for n in ast.walk(mi.tree):
+            if isinstance(n, ast.Call) and isinstance(n.func, ast.Attribute) and n.func.attr in mut \
+                    and isinstance(n.func.value, ast.Name) and n.func.value.id == name:
+                return True
+            if isinstance(n, (ast.Subscript,)) and isinstance(n.ctx, (ast.Store, ast.Del)) \
+                    and isinstance(n.value, ast.Name) and n.value.id == name:
+                return True
+            if isinstance(n, ast.AugAssign) and isinstance(n.target, ast.Name) and n.target.id == name:
+                return True
+            if isinstance(n, ast.Global) and name in n.names:
+                return True
+        return False
 
     def freeze(self, st, v):
         """deep snapshot of a heap value into an immutable meta value"""
@@ -311,6 +351,8 @@ class ExprMixin:
                         yield s2, self.T.neg(self.to_int(x))
                 elif isinstance(e.op, ast.UAdd):
                     yield s2, x
+                elif isinstance(e.op, ast.Invert) and isinstance(x, Opaque) and x.typ in getattr(self, "opaque_operators", ()):
+                    yield from self.opaque_call(s2, x, "__invert__", [], {})
                 elif isinstance(e.op, ast.Invert):
                     yield s2, self.T.sub(self.T.neg(self.to_int(x)), self.intval(1), self.obl_fn(s2))
                 else:
@@ -343,6 +385,9 @@ class ExprMixin:
 
     def binop2(self, st, op, a, b):
         T = self.T
+        if isinstance(a, Opaque) and a.typ in getattr(self, "opaque_operators", ()) and op in (ast.BitAnd, ast.BitOr):
+            yield from self.opaque_call(st, a, "__and__" if op is ast.BitAnd else "__or__", [b], {})
+            return
         # non-numeric overloads
         if isinstance(a, BytesV) and isinstance(b, BytesV) and op is ast.Add:
             yield st, self.bytes_concat(a, b)
@@ -524,6 +569,11 @@ class ExprMixin:
                 else:
                     yield s1, (r if op is ast.In else z3.Not(r))
             return
+        if isinstance(a, Opaque) and a.typ in getattr(self, "opaque_operators", ()):
+            # collaborators that overload comparison operators (query builders)
+            dn = {ast.Eq: "__eq__", ast.NotEq: "__ne__", ast.Lt: "__lt__", ast.LtE: "__le__", ast.Gt: "__gt__", ast.GtE: "__ge__"}[op]
+            yield from self.opaque_call(st, a, dn, [b], {})
+            return
         if op in (ast.Eq, ast.NotEq):
             for s1, r in self.eq_dispatch(st, a, b):
                 if isinstance(r, RaiseV):
@@ -537,6 +587,23 @@ class ExprMixin:
             cls = a.cls if isinstance(a, Rec) else st.obj(a).cls
             if cls is not None and self.repo.find_method(cls, dn):
                 yield from self.call_method(st, a, dn, [b], {})
+                return
+            if cls is not None and self.repo.find_method(cls, "__lt__") and op is not ast.Lt:
+                # functools.total_ordering: the missing comparisons are derived from __lt__ and __eq__
+                for s1, lt in self.call_method(st, a, "__lt__", [b], {}):
+                    if isinstance(lt, RaiseV):
+                        yield s1, lt
+                        continue
+                    ltb = self.truth(s1, lt)
+                    if op is ast.GtE:
+                        yield s1, z3.Not(ltb)
+                        continue
+                    for s2, eqv in self.eq_dispatch(s1, a, b):
+                        if isinstance(eqv, RaiseV):
+                            yield s2, eqv
+                            continue
+                        eqb = self.truth(s2, eqv)
+                        yield s2, (z3.Or(ltb, eqb) if op is ast.LtE else z3.And(z3.Not(ltb), z3.Not(eqb)))
                 return
         for s1, x in self.unwrap(st, a, "comparison"):
             if isinstance(x, RaiseV):
@@ -660,7 +727,10 @@ class ExprMixin:
         yield st, z3.Or(*res)
 
     def dict_has(self, st, o, key):
-        if isinstance(key, SymStr) or (isinstance(key, EnumV) and is_term(key.val) and self.pyconst(key.val) is None):
+        if isinstance(key, SymStr) or (isinstance(key, EnumV) and is_term(key.val) and self.pyconst(key.val) is None) \
+                or (self.is_int(key) and self.pyconst(key) is None and not (o.extra and o.extra.get("open"))
+                    and all(self.is_int(e[0]) and self.pyconst(e[0]) is not None for e in o.items)):
+            # symbolic key against a closed dict of constant keys: present iff it equals one of them
             cs = [z3.And(e[1], self.eq(st, key, e[0])) for e in o.items]
             yield st, z3.Or(*cs) if cs else z3.BoolVal(False)
             return
